@@ -379,6 +379,13 @@ func Add(a, b *Term) *Term {
 	if a.IsInt() && !b.IsInt() {
 		a, b = b, a
 	}
+	// x + (j - x) = j
+	if b.Op == "-" && len(b.Args) == 2 && b.Args[1] == a {
+		return b.Args[0]
+	}
+	if a.Op == "-" && len(a.Args) == 2 && a.Args[1] == b {
+		return a.Args[0]
+	}
 	return TP.mk("+", "", SInt, nil, a, b)
 }
 
@@ -485,8 +492,25 @@ func Store(arr, idx, val *Term) *Term {
 	return TP.mk("store", "", arr.Sort, nil, arr, idx, val)
 }
 
-// Forall builds a quantified formula over Int-sorted bound variables.
+// Forall builds a quantified formula over Int-sorted bound variables. A single bound variable k that
+// is used to index arrays at (off + k) is replaced by the absolute index j = off + k: the array reads
+// become select(a, j), a trigger that matches every ground read of that array however its index is
+// written (arithmetic inside patterns is matched syntactically by the solvers and is fragile).
 func Forall(vars []*Term, body *Term) *Term {
+	if body.IsTrue() {
+		return True
+	}
+	if len(vars) == 1 && vars[0].Sort == SInt {
+		if off := indexOffsetOf(vars[0], body); off != nil {
+			j := Fresh(vars[0].Name+"_a", SInt)
+			body = Subst(body, map[*Term]*Term{vars[0]: Sub(j, off)})
+			vars = []*Term{j}
+		}
+	}
+	return forallRaw(vars, body)
+}
+
+func forallRaw(vars []*Term, body *Term) *Term {
 	if body.IsTrue() {
 		return True
 	}
@@ -494,12 +518,79 @@ func Forall(vars []*Term, body *Term) *Term {
 	return TP.mk("forall", "", SBool, nil, args...)
 }
 
+// indexOffsetOf: the most frequent term x such that the body reads arrays at index (x + k) (possibly plus
+// a literal); nil when k is used as an index directly or never.
+func indexOffsetOf(k *Term, body *Term) *Term {
+	count := map[*Term]int{}
+	direct := 0
+	seen := map[*Term]bool{}
+	var mentions func(t *Term) bool
+	memoM := map[*Term]bool{}
+	mentions = func(t *Term) bool {
+		if t == k {
+			return true
+		}
+		if v, ok := memoM[t]; ok {
+			return v
+		}
+		r := false
+		for _, a := range t.Args {
+			if mentions(a) {
+				r = true
+				break
+			}
+		}
+		memoM[t] = r
+		return r
+	}
+	var walk func(t *Term)
+	walk = func(t *Term) {
+		if seen[t] {
+			return
+		}
+		seen[t] = true
+		if t.Op == "forall" || t.Op == "exists" {
+			// inner quantifiers are handled when they were built
+		}
+		if t.Op == "select" && len(t.Args) == 2 {
+			idx := t.Args[1]
+			if idx.Op == "+" && len(idx.Args) == 2 && idx.Args[1].IsInt() {
+				idx = idx.Args[0] // (x + k) + literal
+			}
+			if idx == k {
+				direct++
+			} else if idx.Op == "+" && len(idx.Args) == 2 {
+				a, b := idx.Args[0], idx.Args[1]
+				if b == k && !mentions(a) {
+					count[a]++
+				} else if a == k && !mentions(b) {
+					count[b]++
+				}
+			}
+		}
+		for _, a := range t.Args {
+			walk(a)
+		}
+	}
+	walk(body)
+	if direct > 0 {
+		return nil
+	}
+	var best *Term
+	for x, n := range count {
+		if best == nil || n > count[best] || (n == count[best] && x.String() < best.String()) {
+			best = x
+		}
+	}
+	return best
+}
+
 // forallPats: explicit instantiation patterns of quantified formulas built by ForallPat.
 var forallPats = map[*Term][][]*Term{}
 
 // ForallPat is Forall with explicit (multi-)patterns; each pattern is an alternative trigger.
 func ForallPat(vars []*Term, body *Term, pats ...[]*Term) *Term {
-	t := Forall(vars, body)
+	t := forallRaw(vars, body)
 	if t.Op == "forall" && len(pats) > 0 {
 		forallPats[t] = pats
 	}
